@@ -24,14 +24,32 @@ EffEq(a, b) ==
 
 F(r) ==
   (IF r.before # r.after THEN {<<"C07", r.id, 0, 0, "shared-program-modified">>} ELSE {})
-  \cup (IF r.kind = "sched" /\ "hang" \in DOMAIN r THEN {<<"C07", r.id, 0, 0, "call-did-not-return">>} ELSE {})
+  \cup (IF r.kind \in {"sched", "evsched"} /\ "hang" \in DOMAIN r THEN {<<"C07", r.id, 0, 0, "call-did-not-return">>} ELSE {})
   \cup {f \in {<<"C07", r.id, k, 0, sig>> : k \in Idx(r.calls), sig \in {"result-differs-from-isolated-call", "effects-differ-from-isolated-call", "panic"}} :
           LET c == r.calls[f[3]] IN
           CASE f[5] = "panic" -> c.res.t = "p"
             [] f[5] = "result-differs-from-isolated-call" -> c.res.t # "p" /\ ~SameVal(c.res, c.want)
             [] f[5] = "effects-differ-from-isolated-call" -> c.res.t # "p" /\ ~EffEq(c.eff, c.wanteff)}
+\* event mode: what the one consumer received from the shared channel is an interleaving of what each call emits alone
+FEv(r) ==
+  IF r.kind # "evsched" \/ r.desync \/ r.nproc # 2 \/ Len(r.calls) # 2 THEN {} ELSE
+  IF IsShuffle(r.calls[1].soloevs, r.calls[2].soloevs, r.merged) THEN {}
+  ELSE {<<"C07", r.id, 0, 0, "events-of-concurrent-calls-are-not-an-interleaving-of-each-call's-own">>}
+\* the merged stream the model predicts under the recorded schedule (ConcProgs!Chunk, as ConcEvents.tla!Advance)
+ModelMerged(Lm, nproc, sch) ==
+  LET RECURSIVE go(_, _, _)
+      go(st, i, acc) ==
+        IF i > Len(sch) THEN acc
+        ELSE LET p == sch[i][1]
+                 ch == Chunk(Lm, p, st[p])
+             IN go([st EXCEPT ![p] = ch.nxt], i + 1, acc \o SubSeq(ch.nxt.out, Len(st[p].out) + 1, Len(ch.nxt.out)))
+  IN go([p \in 1..nproc |-> InitState(Lm, 0)], 1, <<>>)
 \* drift: the model's prediction for the scheduled programs
 Drifts(r) ==
+  IF r.kind = "evsched" THEN
+    (IF r.desync THEN {<<"DRIFT", r.id, 0, "schedule-desynchronised">>}
+     ELSE IF ~SameEvents(ModelMerged(EvLayout(r.prog), r.nproc, r.sched), r.merged) THEN {<<"DRIFT", r.id, 0, "concurrent-event-stream">>} ELSE {})
+  ELSE
   IF r.kind # "sched" THEN {} ELSE
   LET Lm == Layout(Optimize(Progs[r.prog], MaskOf(r.prog), DefaultCfg)) IN
   {<<"DRIFT", r.id, p, "concurrent-model">> : p \in {q \in Idx(r.calls) :
@@ -44,14 +62,14 @@ JNext ==
   /\ l <= Len(Trace)
   /\ l' = l + 1
   /\ LET r == Trace[l]
-         Fs == F(r)
+         Fs == F(r) \cup FEv(r)
          D == Drifts(r)
      IN /\ \A f \in Fs : PrintT(<<"F", f[1], f[2], f[3], f[4], f[5]>>)
         /\ \A f \in D : PrintT(<<"DRIFT", f[2], f[3], f[4]>>)
         /\ judged' = judged + Len(r.calls)
-        /\ nontriv' = nontriv + (IF r.kind = "sched" THEN (IF Len(r.sched) > 2 * r.nproc THEN Len(r.calls) ELSE 0) ELSE Len(r.calls))
+        /\ nontriv' = nontriv + (IF r.kind \in {"sched", "evsched"} THEN (IF Len(r.sched) > 2 * r.nproc THEN Len(r.calls) ELSE 0) ELSE Len(r.calls))
         /\ skipped' = skipped
-        /\ drift' = drift + (IF r.kind = "sched" THEN Len(r.calls) ELSE 0)
+        /\ drift' = drift + (IF r.kind \in {"sched", "evsched"} THEN Len(r.calls) ELSE 0)
         /\ found' = found + Card(Fs)
 JSpec == JInit /\ [][JNext]_jvars
 Done == l = Len(Trace) + 1 => PrintT(<<"SUMMARY", l - 1, judged, nontriv, skipped, drift, found>>)
